@@ -32,7 +32,7 @@ def run_demo(tag, meta, demo):
         return 99, b.stderr[-600:]
     interp = "python3" if demo.endswith(".py") else "bash"
     r = sh(f"{interp} {demo} {WT}/target/debug/ast-grep", cwd=WT)
-    if r.returncode == 2 and ("not found" in r.stdout + r.stderr or "missing" in r.stdout + r.stderr):
+    if r.returncode != 0 and any(w in r.stdout + r.stderr for w in ("not found", "missing", "Not a directory", "build failed")):
         # some demonstrations take the checkout directory instead of the binary
         r = sh(f"{interp} {demo} {WT}", cwd=WT)
     return r.returncode, (r.stdout + r.stderr)[-600:]
